@@ -2,6 +2,7 @@ package main
 
 import (
 	"math/rand"
+	"strconv"
 	"strings"
 )
 
@@ -52,6 +53,7 @@ type c19Gen struct {
 	texts   []string // text between placeholders
 	plain   []string // placeholder-free string values
 	wide    bool
+	long    bool // lists of more than ten items, leaf names ending in numbers of different digit counts (c19LongGen)
 }
 
 func c19ClassicGen() *c19Gen {
@@ -126,6 +128,34 @@ func c19WideGen(r *rand.Rand) *c19Gen {
 	return g
 }
 
+// c19LongGen: "sorted" in the clauses is the order of the key STRINGS.  It differs from the orders a reader of a report
+// may find more natural - list items in document order, digit runs by numeric value, shorter keys first - only on
+// keys that are equal up to a run of digits of different LENGTH: l[10] sorts before l[2], k10 before k2.  So some
+// cases hold lists of more than ten items (top-level items, and items of a list of containers reached at a few
+// indices below and above ten) and leaf names ending in one- and two-digit numbers.
+func c19LongGen(r *rand.Rand) *c19Gen {
+	g := c19ClassicGen()
+	pool := []string{"a", "b", "d.e", "d.f", "k1", "k2", "k9", "k10", "k11"}
+	n := 11 + r.Intn(4)
+	for i := 0; i < n; i++ {
+		pool = append(pool, "l["+c19Itoa(i)+"]")
+	}
+	if r.Intn(2) == 0 {
+		for _, i := range []int{0, 1, 2, 9, 10, 12} {
+			if r.Intn(3) > 0 {
+				pool = append(pool, "g.m["+c19Itoa(i)+"].x")
+			}
+		}
+	}
+	r.Shuffle(len(pool), func(i, j int) { pool[i], pool[j] = pool[j], pool[i] })
+	g.pool = pool
+	g.unknown = append(append([]string{}, c19Unknown...), "k3", "k100")
+	g.long = true
+	return g
+}
+
+func c19Itoa(i int) string { return strconv.Itoa(i) }
+
 // c19LayerNames: layer names for one document (classic, or confusable spellings).
 func c19LayerNames(r *rand.Rand, classic []string) []string {
 	if r.Intn(3) > 0 {
@@ -168,6 +198,9 @@ func c19KeyShape(keys []string) []string {
 			out["white-space-twins"] = true
 		}
 		trim[t] = s
+		if i := strings.LastIndex(s, "["); i >= 0 && strings.IndexByte(s[i:], ']') > 3 {
+			out["list-index>=10"] = true
+		}
 		if len(s) >= 19 && strings.Trim(s, "0123456789") == "" {
 			out["long-digit-string"] = true
 		}
